@@ -17,7 +17,8 @@ import pybads.variable_transformer.variables_transformer as vtmod
 
 class HVT(Harness):
     """params: D, nonlinear (bool), kinds: per coordinate 'fin' | 'inf' (unbounded hard bounds) |
-    ['conc', lb, plb, pub, ub] (concrete bounds; used for log coordinates in mixed problems)"""
+    ['conc', lb, plb, pub, ub] (concrete bounds; used for log coordinates in mixed problems); dtype='int': the
+    (all concrete, integer-valued) bounds are handed over as integer arrays"""
     name = "H-VT"
     functions = (vtmod.VariableTransformer.__init__, vtmod.VariableTransformer.__create_hypercube_trans__,
                  vtmod.VariableTransformer.__call__, vtmod.VariableTransformer.inverse_transf, vtmod.maskindex)
@@ -53,7 +54,11 @@ class HVT(Harness):
                     eng.assume(z3.And(*cs))
         else:
             lb, ub, plb, pub = [a.astype(float) for a in (lb, ub, plb, pub)]
-        o_lb, o_ub, o_plb, o_pub = [snap(a) for a in (lb, ub, plb, pub)]
+        if p.get("dtype") == "int":
+            # integer-typed spelling of concrete integer bounds (what np.atleast_2d makes of a list of Python ints)
+            assert all(isinstance(kd, (list, tuple)) and kd[0] == "conc" for kd in kinds)
+            lb, ub, plb, pub = [np.asarray(_raw(a), dtype=float).astype(int) for a in (lb, ub, plb, pub)]
+        o_lb, o_ub, o_plb, o_pub = [snap(a).astype(float) if p.get("dtype") == "int" else snap(a) for a in (lb, ub, plb, pub)]
         logflag = (np.full((1, D), np.nan) if eng.concrete else to_obj(np.full((1, D), np.nan))) if nonlinear else np.zeros((1, D))
         out = Out()
         try:
